@@ -140,7 +140,7 @@ func c04FindBSeed(code string) (int, bool) {
 	for seed := 1; seed < 3000; seed++ {
 		crand.Reader = &detStream{seed: seed}
 		sess, err := pair.NewSetupServerSession("x", code)
-		if err == nil && len(sess.PublicKey) < 384 {
+		if err == nil && (len(sess.PublicKey) < 384 || sess.PublicKey[0] == 0) { // (judged by value: a padded B counts)
 			c04BSeed[code] = seed
 			return seed, true
 		}
